@@ -17,6 +17,8 @@
 package format
 
 import (
+	"go/types"
+
 	"github.com/goplus/xgo/ast"
 	"github.com/goplus/xgo/token"
 )
@@ -36,13 +38,16 @@ var printFuncs = [][2]string{
 	{"Sprintln", "sprintln"},
 }
 
-func fmtToBuiltin(ctx *importCtx, sel *ast.Ident, ref *ast.Expr) bool {
+func fmtToBuiltin(ctx *importCtx, scope *types.Scope, sel *ast.Ident, ref *ast.Expr) bool {
 	if ctx.pkgPath == "fmt" {
 		for _, fns := range printFuncs {
 			if fns[0] == sel.Name || fns[1] == sel.Name {
 				name := fns[1]
 				if name == "println" {
 					name = "echo"
+				}
+				if _, o := scope.LookupParent(name, token.NoPos); o != nil {
+					return false // the program declares this name itself
 				}
 				*ref = &ast.Ident{NamePos: sel.NamePos, Name: name}
 				return true
